@@ -160,6 +160,11 @@ fn main() {
             }
             out.join(" ")
         }
+        "S" => {
+            // debugging aid: S <env> <args> <script text> -> result letter of the script (how = 0)
+            let args = dec_list(f[2]);
+            run_pred(&dec_str(f[3]), f[1], &args, 0).to_string()
+        }
         _ => "BADLINE".to_string(),
     });
 }
